@@ -8,6 +8,8 @@ package main
 //      (route table = Generated/Routes.lean), with direct oracles: canaries never disclosed, nothing changes.
 
 import (
+	"net"
+	"time"
 	"bytes"
 	"crypto/ed25519"
 	"encoding/json"
@@ -129,6 +131,7 @@ func checkC01(c *Ctx) {
 	c.Assume("net/http request parsing and the remote-address → session mapping are exercised, not modelled; connection ids are unique in the model")
 	checkC01E2E(c)
 	c01SameRemote(c)
+	c01EventLeak(c)
 	c03VerifyInterleaved(c) // another connection's request in the middle of a genuine finish (shared handler state)
 	c03Revocation(c)        // a removed controller must not be verified again (stale lookups)
 
@@ -548,5 +551,105 @@ func c01SameRemote(c *Ctx) {
 		}
 		c.Count(id, true, "stream:same-remote")
 		w.f.Close()
+	}
+}
+
+// c01EventLeak: events are messages the accessory writes on its own initiative: they carry characteristic values, so they
+// are "protected data" as much as the answer to a GET. While a verified controller is subscribed and values change,
+// connections that never verified (open at the same time; opened after the subscriber has gone) must receive NOTHING.
+func c01EventLeak(c *Ctx) {
+	for i := 0; i < c.Pick(1, 12); i++ {
+		id := c.CaseID("event-leak", i)
+		if c.Skip(id) {
+			continue
+		}
+		r := c.CaseRng("event-leak", i)
+		sw := accessory.NewSwitch(accessory.Info{Name: "Leak"})
+		acc, err := startE2E(c.ScratchDir(), "00102003", false, sw.Accessory)
+		if err != nil {
+			c.Violate("transport does not start", id, nil, "started", err.Error())
+			continue
+		}
+		func() {
+			defer acc.Stop()
+			ident := newRefIdentity(r, "ctrl-leak")
+			setup, _ := acc.Dial()
+			sr := refPairSetup(r, setup.Post(), "001-02-003", ident)
+			setup.Close()
+			if sr.ErrAt != "" {
+				c.Violate("reference controller cannot pair", id, nil, "paired", sr.ErrAt)
+				return
+			}
+			sub := fmt.Sprintf(`{"characteristics":[{"aid":%d,"iid":%d,"ev":true}]}`, sw.Accessory.ID, sw.Switch.On.ID)
+			subscriber := func() *refClient {
+				cl, err := acc.Dial()
+				if err != nil {
+					return nil
+				}
+				vr := refPairVerify(r, cl.Post(), ident, sr.AccLTPK)
+				if vr.Shared == nil {
+					cl.Close()
+					return nil
+				}
+				cl.Upgrade(vr.Shared)
+				if m, err := cl.Do("PUT", "/characteristics", "application/hap+json", []byte(sub)); err != nil || m.Status != 204 {
+					cl.Close()
+					return nil
+				}
+				return cl
+			}
+			strangers := func(n int) []net.Conn {
+				var l []net.Conn
+				for k := 0; k < n; k++ {
+					if cn, err := net.DialTimeout("tcp", "127.0.0.1:"+acc.port, time.Second); err == nil {
+						l = append(l, cn)
+					}
+				}
+				time.Sleep(50 * time.Millisecond) // accepted and registered
+				return l
+			}
+			leaked := func(l []net.Conn) string {
+				buf := make([]byte, 4096)
+				for k, cn := range l {
+					cn.SetReadDeadline(time.Now().Add(150 * time.Millisecond))
+					if n, _ := cn.Read(buf); n > 0 {
+						return fmt.Sprintf("unverified connection %d of %d received %d bytes: %q", k+1, len(l), n, trunc(string(buf[:n]), 120))
+					}
+				}
+				return ""
+			}
+			toggle := func(n int) {
+				for k := 0; k < n; k++ {
+					sw.Switch.On.SetValue(!sw.Switch.On.GetValue())
+					time.Sleep(2 * time.Millisecond)
+				}
+			}
+			nStr := 4 + r.Intn(6)
+			// phase 1: the subscriber and the strangers are connected at the same time
+			s1 := subscriber()
+			if s1 == nil {
+				c.Violate("verified reference controller cannot subscribe", id, nil, "subscribed", "failed")
+				return
+			}
+			st1 := strangers(nStr)
+			toggle(6)
+			if msg := leaked(st1); msg != "" {
+				c.Violate("a connection that never verified receives an event (a characteristic value, in plaintext) meant for a subscribed controller", id,
+					map[string]interface{}{"verified_subscribers": 1, "unverified_connections_open": nStr, "local_value_changes": 6}, "nothing", msg)
+			}
+			// phase 2: the subscriber goes away; connections opened afterwards
+			s1.Close()
+			time.Sleep(50 * time.Millisecond)
+			st2 := strangers(nStr + 8)
+			toggle(6)
+			if msg := leaked(append(st2, st1...)); msg != "" {
+				c.Violate("a connection that never verified receives an event after the subscribed controller has disconnected", id,
+					map[string]interface{}{"then": "subscriber disconnects; new connections; the value changes", "unverified_connections_open": len(st1) + len(st2)}, "nothing", msg)
+			}
+			for _, cn := range append(st1, st2...) {
+				cn.Close()
+			}
+			c.Count(id, true, "stream:event-leak", fmt.Sprintf("event-leak:strangers=%d", nStr))
+		}()
 	}
 }
